@@ -20,7 +20,7 @@
     kind.  With the state type [unit] it is a pure table [value_of]; with [Engine.st] it is the
     machine of Engine.v.  No proofs in this file. *)
 From Coq Require Import ZArith QArith Qabs List Bool String Ascii.
-From Verif Require Import Base Cal Period PeriodStr Param Engine.
+From Verif Require Import Base Cal Tables Period PeriodStr Param Engine.
 Import ListNotations.
 Open Scope string_scope.
 Open Scope Z_scope.
@@ -422,12 +422,28 @@ Section Eng.
         end
     end.
 
+  (** finalize_variables_init sets the buffered periods of a variable sorted by
+      (unit weight, size), equal ones in the order of the document (an eternal variable
+      keeps one array for all periods: the last one set wins) *)
+  Definition key_leb (a b : string * string * period) : bool :=
+    let pa := snd a in let pb := snd b in
+    (unit_weight (p_unit pa) <? unit_weight (p_unit pb))
+    || ((unit_weight (p_unit pa) =? unit_weight (p_unit pb)) && (p_size pa <=? p_size pb)).
+
+  Fixpoint insert_key (k : string * string * period) (l : list (string * string * period)) :=
+    match l with
+    | [] => [k]
+    | h :: t => if key_leb k h then k :: l else h :: insert_key k t
+    end.
+
+  Definition sort_keys (l : list (string * string * period)) := fold_right insert_key [] l.
+
   Definition input_requests (d : doc) : list request :=
     flat_map (fun k => let '(pl, v, p) := k in
                 match eng_var v, eng_ids_of pl with
                 | Some (i, x), Some ids => [RSetInput i p (input_array d pl ids v p (v_default x))]
                 | _, _ => []
-                end) (input_keys d []).
+                end) (sort_keys (input_keys d [])).
 
   Fixpoint apply_inputs (s : st) (rs : list request) : res st :=
     match rs with
